@@ -158,7 +158,7 @@ def run_proc(ctx, binary, cases, gomaxprocs, race, tag):
     with open(inp, "w") as f:
         for c in cases:
             f.write(json.dumps(c, separators=(",", ":")) + "\n")
-    env = vlib.goenv()
+    env = vlib.harness_env(ctx)
     env["GOMAXPROCS"] = str(gomaxprocs)
     if race:
         env["GORACE"] = "log_path=%s halt_on_error=0 exitcode=0" % os.path.join(d, "race")
